@@ -58,7 +58,10 @@ CLAIMS = {
         "text": "Proof for the listed sites only: find_value no longer reaches unreachable!() and returns Err; "
                 "EitherOfWrapper::new/wrap never index out of bounds, never underflow, terminate; default_of_inner "
                 "terminates on every inherits graph; the JSON / script string writers are total; range arithmetic has "
-                "no overflow (Kani checks on).",
+                "no overflow (Kani checks on). Bounded (Kani, not counted as proved): the scan for the `{..}` arguments "
+                "of a foreign key (statements of parse_foreign_key_args lifted verbatim) neither splits out of range nor "
+                "inside a character, for every UTF-8 text of up to 5 (quick) / 7 (thorough) bytes over a small alphabet "
+                "with multibyte characters.",
         "note": "The property as a whole is NOT established: every &str offset computation of the parser, UnwrapAt "
                 "sites justified by cross-structure invariants, stack depth, serde front ends and the build-script API "
                 "are outside reach. Assumed: callers of EitherOfWrapper::new pass size >= 1; quote!/format_ident! do not "
